@@ -50,6 +50,9 @@ CFG = {
             "iops": (("sub", ("lit", 1)),), "unreg": True},
     "nest": {"values": (3,), "templates": ("mul2", "add", "sub", "round1"), "iops": (("add", ("lit", 1)),), "unreg": True},
     "label": {"values": (3,), "templates": ("mul2", "add", "floor", "rpow"), "iops": (("mul", ("src",)),), "unreg": True},
+    # few locations, deeper: operations that are queries on the explored manager (export = another manager copies from it)
+    # interleaved with definitions being added, replaced by values and removed
+    "tiny": {"values": (3,), "templates": ("mul2",), "unreg": True, "leaves_n": 3},
 }
 
 
@@ -58,6 +61,12 @@ QUICK_SOURCES = {"W-mix": [P("a"), P("l", 1), P("o", ("a", "q"))], "W-nest": [P(
 
 def alphabet(world, name, tier="thorough"):
     cfg = dict(CFG[name])
+    n = cfg.pop("leaves_n", None)
+    if n:
+        cfg["leaves"] = world["leaves"][:n]
+        cfg["sources"] = world["leaves"][:n]
+        cfg["extra"] = [("export",)]
+        return cfg
     if tier == "quick" and world["name"] in QUICK_SOURCES:
         cfg["sources"] = QUICK_SOURCES[world["name"]]     # operands of the templates come from 3 locations (targets: all)
     loads = _loads(world)
@@ -489,8 +498,8 @@ def has_cmp(t):
 def plan(tier, seed):
     seeds = common.seeds_for(tier, seed, quick=(0,), thorough=(0, 1))
     jobs = [{"name": "terms", "mode": "compiled", "hashseed": seed % 2 ** 32, "nproc": 4, "timeout": 3000, "args": {"what": "terms", "tier": tier}}]
-    runs = [("W-mix", "mix", 2), ("W-nest", "nest", 2), ("W-label", "label", 2)] if tier == "quick" else \
-        [("W-mix", "mix", 3), ("W-nest", "nest", 3), ("W-label", "label", 3)]
+    runs = [("W-mix", "mix", 2), ("W-nest", "nest", 2), ("W-label", "label", 2), ("W-flat", "tiny", 4)] if tier == "quick" else \
+        [("W-mix", "mix", 3), ("W-nest", "nest", 3), ("W-label", "label", 3), ("W-flat", "tiny", 5), ("W-nest-4", "tiny", 4)]
     for hs in seeds:
         for wname, alpha, depth in runs:
             jobs.append({"name": f"bfs:{wname}:{alpha}:d{depth}:seed{hs}", "mode": "compiled", "hashseed": hs, "nproc": 4 if tier == "quick" else 8,
